@@ -1649,17 +1649,21 @@ func (f *fn) rangeStmt(s *ast.RangeStmt, k kont, fl *flow) string {
 	}
 	eb, ea := f.loopExtra(from, s)
 	recCall := name + ea + f.argNames(params) + keyNext + " " + restName
+	// the code after the loop is translated outside the loop's extent
+	after := f.afterLoop(name, containsBreakTo(s.Body, label), params, k)
+	exit := after()
+	if !containsBreakTo(s.Body, label) {
+		after = func() string { return exit }
+	}
 	saveOuter := f.outerLoop
 	if f.outerLoop == token.NoPos {
 		f.outerLoop = s.Pos()
 	}
-	after := f.afterLoop(name, containsBreakTo(s.Body, label), params, k)
 	contK := func() string { return recCall }
 	inner := fl.with(after, contK, label)
 	f.loopBinders = append(f.loopBinders, scopeBinder{restName, "List " + paren(elT)})
 	body := f.stmts(s.Body.List, contK, inner)
 	f.loopBinders = f.loopBinders[:len(f.loopBinders)-1]
-	exit := after()
 	f.outerLoop = saveOuter
 	def := fmt.Sprintf("/-- `%s`: `for %s := range %s` at %s; `%s` is the part of the slice not yet visited -/\n"+
 		"def %s%s%s%s (%s : List %s) : %s :=\n  match %s with\n  | [] =>\n%s\n  | %s :: %s =>\n%s\n",
@@ -1721,11 +1725,14 @@ func (f *fn) forStmt(s *ast.ForStmt, k kont, fl *flow) string {
 	fuelName := fmt.Sprintf("fuel%d", f.loopN)
 	eb, ea := f.loopExtra(from, s)
 	recCall := name + ea + " " + fuelName + f.argNames(params)
+	// the code after the loop is translated outside the loop's extent
+	after := f.afterLoop(name, containsBreakTo(s.Body, label), params, k)
+	exitText := after()
+	after = func() string { return exitText }
 	saveOuter := f.outerLoop
 	if f.outerLoop == token.NoPos {
 		f.outerLoop = s.Pos()
 	}
-	after := f.afterLoop(name, containsBreakTo(s.Body, label), params, k)
 	contK := func() string {
 		if s.Post != nil {
 			return f.stmt(s.Post, func() string { return recCall }, nil)
